@@ -103,6 +103,7 @@ type State struct {
 	imprecise bool
 	epochAll  int
 	epochExt  int
+	allocCtr  Term // every object/region id known so far is below this
 	ex      *Exec
 }
 
@@ -117,7 +118,7 @@ func (st *State) clone() *State {
 		iters: make(map[ssa.Value]Term, len(st.iters)), path: st.path[:len(st.path):len(st.path)],
 		variant: make(map[string]Term, len(st.variant)), inLoop: make(map[string]bool, len(st.inLoop)),
 		notes: st.notes[:len(st.notes):len(st.notes)], callN: make(map[string]int, len(st.callN)),
-		imprecise: st.imprecise, ex: st.ex, epochAll: st.epochAll, epochExt: st.epochExt,
+		imprecise: st.imprecise, ex: st.ex, epochAll: st.epochAll, epochExt: st.epochExt, allocCtr: st.allocCtr,
 	}
 	for k, v := range st.regs {
 		n.regs[k] = v
@@ -202,13 +203,29 @@ func (st *State) fresh(hint, sort string) Term {
 func (st *State) freshAlloc(hint string) Term {
 	t := st.fresh("new_"+hint, SortInt)
 	st.assume(Gt(t, IntLit(0)))
+	st.assume(Ge(t, st.allocCtr))
 	st.assume(Not(mkTerm("(isold "+t.S+")", SortBool)))
 	st.assume(Eq(mkTerm("(rg.kind "+t.S+")", SortInt), IntLit(0)))
-	for _, o := range st.allocs {
-		st.emit(fmt.Sprintf("(assert (not (= %s %s)))", t.S, o))
-	}
+	st.allocCtr = Add(t, IntLit(1))
 	st.allocs = append(st.allocs, t.S)
 	return t
+}
+
+// bumpAlloc: a callee (or a loop body) may have allocated; ids it returns are
+// below the new counter, ids allocated later are above it.
+func (st *State) bumpAlloc() {
+	n := st.fresh("allocctr", SortInt)
+	st.assume(Ge(n, st.allocCtr))
+	st.allocCtr = n
+}
+
+// known records that an id obtained from memory or from a callee denotes
+// something already allocated.
+func (st *State) known(id Term) {
+	if id.K != nil {
+		return
+	}
+	st.assume(Lt(id, st.allocCtr))
 }
 
 func heapSym(name string) string { return "H_" + mangle(name) }
